@@ -17,11 +17,30 @@ type CollectScenario struct {
 	End   string
 	Sync  int // number of notifications emitted synchronously inside Subscribe (the rest comes from a goroutine)
 	Chain bool
+	Hold  bool // schedule replay: the producer goroutine is held for 2 ms between the status change and the delivery of its terminal notification, and
+	// the subscribe function returns exactly then (Collect must still wait for the terminal callback)
 }
 
 func GenCollect(r *rand.Rand) CollectScenario {
 	n := r.Intn(6)
-	return CollectScenario{N: n, End: []string{"C", "E", "E"}[r.Intn(3)], Sync: r.Intn(n + 2), Chain: r.Intn(2) == 0}
+	sc := CollectScenario{N: n, End: []string{"C", "E", "E"}[r.Intn(3)], Sync: r.Intn(n + 2), Chain: r.Intn(2) == 0}
+	if sc.Sync <= n && r.Intn(3) == 0 {
+		sc.Hold = true
+	}
+	return sc
+}
+
+// collectHold: producer goroutines to hold at the hook point between the status change and the delivery of a terminal notification.
+var collectHold sync.Map // gid -> chan struct{} (closed when the producer is there)
+
+// CollectHook is installed as the library's verification hook by drive-collect (on top of the yield hook).
+func CollectHook(point string, obj any) {
+	if point == "subscriber:ErrorWithContext:deliver" || point == "subscriber:CompleteWithContext:deliver" {
+		if ch, ok := collectHold.LoadAndDelete(rec.Gid()); ok {
+			close(ch.(chan struct{}))
+			time.Sleep(2 * time.Millisecond)
+		}
+	}
 }
 
 func RunCollect(lg *rec.Log, sc CollectScenario, seed int64) []rec.Ev {
@@ -46,8 +65,15 @@ func RunCollect(lg *rec.Log, sc CollectScenario, seed int64) []rec.Ev {
 	var o ro.Observable[int] = ro.NewObservable(func(d ro.Observer[int]) ro.Teardown {
 		emit(d, 1, sc.Sync)
 		wg.Add(1)
+		there := make(chan struct{})
+		started := make(chan struct{})
 		go func() {
 			defer wg.Done()
+			if sc.Hold {
+				collectHold.Store(rec.Gid(), there)
+				defer collectHold.Delete(rec.Gid())
+			}
+			close(started)
 			for i := sc.Sync + 1; i <= sc.N+1; i++ {
 				if r.Intn(3) == 0 {
 					jitter(r)
@@ -55,6 +81,13 @@ func RunCollect(lg *rec.Log, sc CollectScenario, seed int64) []rec.Ev {
 				emit(d, i, i)
 			}
 		}()
+		if sc.Hold {
+			<-started
+			select { // return while the producer sits between the status change and the terminal callback
+			case <-there:
+			case <-time.After(50 * time.Millisecond):
+			}
+		}
 		return nil
 	})
 	if sc.Chain {
